@@ -91,7 +91,7 @@ let format_case a =
   | sink :: mode :: fmt :: rest ->
       let fmtv = if is_null fmt then None else Some (bytes_of_hex fmt) in
       let args = List.map parse_arg rest in
-      let verdict = spec_format fmtv args in
+      let verdict = lazy (spec_format fmtv args) in
       (match stream_of sink with
        | None when trace_size (driver fmtv args) > (1 lsl 24) ->
            (* C10Proofs.huge_when_big / huge_only_big: decided from the size of the calls, without
@@ -107,7 +107,7 @@ let format_case a =
              if sink = "latin1" then pr_outcome (bufinfo 2) (format_to_latin1 fmtv args)
              else pr_outcome (bufinfo 2) (format_to_string (mode_of mode) fmtv args) in
            let s =
-             match verdict with
+             match Lazy.force verdict with
              | VNull -> "THROW invalid_argument"
              | VFail (b, o, c) -> allow_line b o c
              | VBytes raw ->
@@ -123,7 +123,7 @@ let format_case a =
            let m = pr_stream width (format_to_stream st fmtv args) in
            let facts = chunk_facts (driver fmtv args) in
            let s =
-             match verdict with
+             match Lazy.force verdict with
              | VNull -> "OK . n=0 end=invalid_argument"
              | VFail (b, o, c) -> "ENDS" ^ (if b then " bad_format" else "") ^ (if o then " out_of_range" else "")
                                   ^ (if c then " ABORT:CharPad" else "")
@@ -172,11 +172,28 @@ let insert_case a =
                    | _ -> "OK " ^ hex_of_units 8 cps)) in
   (m, sp)
 
+(* extraction: token (libstdc++'s, modelled for the C locale) and what the ST::string then holds *)
+let extract_case a =
+  let (ct, width) = ct_of (List.nth a 0) in
+  let text = units_of_hex width (List.nth a 1) in
+  let tok = extract_token ct text in
+  let facetless = (match ct with CtChar16 | CtChar32 -> true | _ -> false) in
+  let fail = (tok = []) in
+  let line =
+    match set_from_token ct tok with
+    | Ok st -> Printf.sprintf "OK tok=%s tokend=ok st=%s fail=%d end=ok" (hex_of_units width tok) (hex_of_bytes st) (if fail then 1 else 0)
+    | Throw e -> Printf.sprintf "OK tok=%s tokend=ok st=756e736574 fail=0 end=%s" (hex_of_units width tok) (exn_name e)
+    | Abort w -> "ABORT " ^ abort_name w
+    | Fault f -> "FAULT " ^ fault_name f in
+  ignore facetless;
+  (line, "=")
+
 let dispatch op a =
   match op with
   | "format" -> format_case a
   | "strtol" -> strtol_case a
   | "insert" -> insert_case a
+  | "extract" -> extract_case a
   | _ -> failwith ("drv_fmt: unknown op " ^ op)
 
 let () = run_main dispatch
